@@ -90,3 +90,16 @@ def wf_randoms_retry(n: int) -> list:
         RETRY_ONCE[0] = False
         raise Retriable("first execution fails", vals)
     return vals
+
+
+# ---- call spellings (C07 / C15): one logical call, many ways to write it
+def sp_f(a: int, b: int = 0) -> int:
+    return a + b
+
+
+def sp_g(a: int, b: int = 0, *, c: int = 1) -> int:
+    return a + b + c
+
+
+def sp_h(x: str, y: str = "d") -> str:
+    return x + y
